@@ -27,6 +27,9 @@ func unbondProfile() Profile {
 	p.Weights = map[string]int{KDelegate: 20, KUndelegate: 26, KRedelegate: 12, KClaim: 2, KBlock: 18, KSlashHook: 5, KSlash: 5, KUnbTime: 4, KDonate: 1, KJail: 1, KUnjail: 1, KNatDel: 1}
 	p.FocusDelPct = 60
 	p.UnbTimes = []int64{ns, sec, sec, 3600 * sec, 21 * day}
+	p.BoundaryPct = 45
+	p.RepeatPct = 40
+	p.Weights[GPackBucket] = 7
 	return p
 }
 
@@ -72,7 +75,8 @@ func init() {
 			p.Weights[KRedelegate] = 16
 			p.Weights[KUpdate] = 3
 			p.Weights[KClaim] = 5
-			p.Weights[GExportAtBoundary] = 6
+			p.Weights[GExportAtBoundary] = 10
+			p.Weights[GRedelThenExit] = 3
 			p.ChRates = []string{"1", "0.5", "0.99"}
 			p.Delays = []int64{0, 0, sec, 7 * day}
 			p.MaxSteps = 30
@@ -144,6 +148,7 @@ func rewardsProfile() Profile {
 	p.Weights_ = []string{"0.01", "0.5", "1", "5"}
 	p.SettleBeforeValueChange = true
 	p.SettleSlashPct = 65
+	p.FocusValPct = 45
 	p.NAssetsMin = 1
 	p.InvalidPct = 3
 	p.Weights[GRedelThenExit] = 3
